@@ -1,6 +1,6 @@
 (* Extraction of the C03 label/fixup model (ExtrOcamlBasic only; numbers stay Coq's positive/Z/nat datatypes). *)
 From Coq Require Extraction ExtrOcamlBasic.
-From Verif Require Import Codec.OffsetModel Labels.LabelsModel Labels.FlatModel Labels.SparseModel Labels.A64Dec.
+From Verif Require Import Codec.OffsetModel Labels.LabelsModel Labels.FlatModel Labels.SparseModel Labels.A64Dec Labels.A64DbTie.
 Extraction Blacklist List String Int.
 Extraction "labels.ml" LabelsModel.init LabelsModel.step LabelsModel.sec_image LabelsModel.cur_sec
-  LabelsModel.x86_branch_form LabelsModel.x86_branch_form_unbound LabelsModel.decode_kind LabelsModel.kind_mask LabelsModel.x64_rip_field SparseModel.sinit SparseModel.sstep SparseModel.s_cur_buf SparseModel.sb_len A64Dec.a64_site_target.
+  LabelsModel.x86_branch_form LabelsModel.x86_branch_form_unbound LabelsModel.decode_kind LabelsModel.kind_mask LabelsModel.x64_rip_field SparseModel.sinit SparseModel.sstep SparseModel.s_cur_buf SparseModel.sb_len A64Dec.a64_site_target A64Dec.a64_dec A64DbTie.a64_mn A64DbTie.a64_rid.
